@@ -62,7 +62,7 @@ CHECKS = {
  "C16": ("scanx+bytex", "DESIGN.md §4 E3, §5 C16",
    "reachability over the synchronous product of the real scanner automaton with a reference pushdown recogniser (all 256 bytes per state), plus exhaustive short strings into codec functions and entry points",
    "The library's private scanner is cloned and single-stepped (observation file injected by overlay) in lock-step with a reference recogniser; BFS over the product with stacks to depth 4 compares end-of-input acceptance in every reachable state: language equality for inputs of every length at that nesting. All strings over 33 byte classes up to length 5/6 whose proper prefixes are viable test Valid/Compact/Indent/Unmarshal/UnmarshalWithKeys; accepted strings (with whitespace around) and all 16-symbol strings up to 4/5 go to every public entry point; nesting at 10000/10001 levels.",
-   T+"Bytes >= 0x80 are treated as string characters without UTF-8 validation (the grammar applied to bytes, as the standard library does). Nesting between 5 and 9998 levels is covered by the stack-top-only argument, not by enumeration. Also: string literals of every length 0..130 and around 256/1024/4096 with one special byte at the start/middle/end into codec functions and entry points; and buffer histories - one caller buffer per size 16..70000 handed to each entry point well-formed, then overwritten in place with an ill-formed text of equal length, then well-formed again. 760 number literals (sign x 4 integer parts x 5 fractions x 19 exponent spellings) and byte order marks / U+200B around every accepted text."),
+   T+"Bytes >= 0x80 are treated as string characters without UTF-8 validation (the grammar applied to bytes, as the standard library does). Nesting between 5 and 9998 levels is covered by the stack-top-only argument, not by enumeration. Also: string literals of every length 0..130 and around 256/1024/4096 with one special byte at the start/middle/end into codec functions and entry points; and buffer histories - one caller buffer per size 16..70000 handed to each entry point well-formed, then overwritten in place with an ill-formed text of equal length, then well-formed again. 760 number literals (sign x 4 integer parts x 5 fractions x 19 exponent spellings) and byte order marks / U+200B around every accepted text. Run shapes: runs of 1..64 blanks inserted at every byte position of a dozen short texts; runs of 1..33 digits after every number prefix and after \\u escapes."),
  "C18": ("seqx", "DESIGN.md §4 E1, §5 C18",
    "C01's enumeration on the legacy root package (built as a module through an overlay go.mod), restricted to the stated domain",
    "Sequences the reference evaluates successfully (without add '' / copy from '') must succeed with a structurally equal document; sequences whose first inapplicable operation is a failed test, a remove/move of an absent target or an out-of-range index must fail with no document; other failures are outside the domain.",
